@@ -251,4 +251,9 @@ def build(ub, algebra_text):
     # leaves: symbols are declared Bool iff 1 bit wide, literals are written true/false iff 1 bit wide, #b.. otherwise
     ub.out("pub proof fn lemma_leaves(e: Expr, r1: bool, mbv: bool)\n    requires e is BVSymbol || e is BVLiteral,\n"
            "    ensures written(elem(r1), &e, r1, mbv) == wanted(r1, mbv, false),\n{\n}\n")
+    # ---- the rest of the writer the property rests on is NOT under contract here (format!/write!-based emission): pinned, so that
+    # a change is reported as undecided instead of passing silently (identifier quoting has its own bounded kernel, KL smt_ident)
+    for fn_name in ("escape_smt_identifier", "serialize_cmd", "serialize_type", "find_next_child"):
+        ub.pin_assumed_fn(SER, fn_name, None, "not under contract (write!-based emission); pinned by hash")
+    ub.pin_rest_of_file(SER)   # frame: the other functions of the file (DESIGN 11.12)
     ub.out("} // verus!\nfn main() {}\n")
